@@ -129,7 +129,15 @@ def run(R):
         o = [rng.randrange(gi) * cs for gi in g]
         d = rng.randrange(3)
         o[d] += rng.randrange(1, cs)
-        impl = outcome_of(lambda: int(v.get_cmc([o[0], o[0] + cs, o[1], o[1] + cs, o[2], o[2] + cs])))
+        # the far end of the box: a whole chunk, clipped at the volume boundary, or exactly the boundary
+        # (an off-lattice origin stays off the lattice whatever its box ends at)
+        ends = rng.choice(["whole", "clipped", "boundary", "boundary"])
+        if ends == "boundary" and rng.random() < 0.6:
+            o[d] = sizes[d] - rng.randrange(1, cs)          # a partial box that touches the far boundary
+        mx = [o[k] + cs if ends == "whole" else min(o[k] + cs, sizes[k]) if ends == "clipped"
+              else (sizes[k] if k == d else min(o[k] + cs, sizes[k])) for k in range(3)]
+        R.count(f"offlattice:end={ends}")
+        impl = outcome_of(lambda: int(v.get_cmc([o[0], mx[0], o[1], mx[1], o[2], mx[2]])))
         mod = model_outcome(R.model.call("get_cmc", [[cs] * 3, sizes, o[0], o[1], o[2]]))
         case = {"chunk": cs, "sizes": sizes, "origin": o}
         R.case(case, nontrivial=True)
@@ -180,13 +188,27 @@ def run(R):
         spec = sb.ShardSpec(m, s, preshift_bits=p)
         rw = sb.CMCReadWrite(spec)
 
+        # the masks are memoised properties of the spec: every order of first access (the writer reads
+        # preshift_mask between two chunks, a reader never does) must give the same routing, before and
+        # after all of them have been read
+        order = rng.sample(["preshift_mask", "minishard_mask", "shard_mask", "keys"], 4)
+
         def impl_fn():
             with np.errstate(all="ignore"):
+                first = None
+                for what in order:
+                    if what == "keys":
+                        first = [int(rw.get_shard_key(np.uint64(cid))), int(rw.get_minishard_key(np.uint64(cid)))]
+                    else:
+                        getattr(spec, what)
                 sk = rw.get_shard_key(np.uint64(cid))
                 mk = rw.get_minishard_key(np.uint64(cid))
+                if first != [int(sk), int(mk)]:
+                    return ["routing-depends-on-mask-access-order", order, first, [int(sk), int(mk)]]
                 name = Shard(shard_dir, sk, spec).file_path.name
                 return [int(sk), int(mk), name.encode(), int(rw.header_byte_length)]
         impl = outcome_of(impl_fn)
+        R.count("routing:first-access=" + order[0])
         m_sk, m_mk, m_name, m_hdr, s_sk, s_mk, s_name = rep
         mod = ["ok", [m_sk, m_mk, m_name + b".shard", m_hdr]]
         case = {"preshift": p, "minishard": m, "shard": s, "id": cid}
